@@ -25,9 +25,8 @@ type runner struct {
 
 // probeMux reports whether this tree's multiplexer answers an IQ without a
 // payload element through its fallback (the repair of mux.iqRouter) or returns
-// io.EOF for it (the pinned behaviour). The model has both variants; which one
-// is compared is decided by this observation, and the oracle is the same for
-// both.
+// io.EOF for it (the pinned behaviour). The model has both variants (the pinned
+// one only for the refutation theorem); the observation goes into the evidence.
 func probeMux() bool {
 	o := sv.Run(sv.Spec{NS: "jabber:client", Mode: 1, Script: "<iq type='get' id='probe'/></stream:stream>"})
 	return len(o.Invs) == 1 && len(o.Invs[0].Wrote) > 0
@@ -248,10 +247,13 @@ func pickS(r *hx.Rand, xs []string) string { return xs[r.Intn(len(xs))] }
 func main() {
 	o := hx.ParseFlags()
 	res := hx.NewResult("C07")
-	x := &runner{res: res, muxFixed: probeMux(), noModel: o.Search}
+	// The model of record is the repaired multiplexer (fix 4499470 on main): if
+	// the pinned behaviour returns, the correspondence breaks and the oracle's
+	// mux clause reports the unanswered request. The probe is only recorded.
+	x := &runner{res: res, muxFixed: true, noModel: o.Search}
 	x.cf = hx.CaseFile{Name: "c07", Imports: imports, Ok: "case_ok7", Type: "bytes"}
 	r := hx.NewRand(o.Seed)
-	res.Extra["mux_answers_empty_iq"] = x.muxFixed
+	res.Extra["mux_answers_empty_iq"] = probeMux()
 
 	if o.Replay != "" {
 		b, err := os.ReadFile(o.Replay)
